@@ -63,6 +63,29 @@ theorem causal_of_hotStart {α} (km : KModel α) (h : HotStart km)
       congr 1
       rw [← hs]; simp
 
+/-- **Causality (truncation form)**: whenever the run over the whole period and the run over its first part both
+succeed, the outputs of the whole run restricted to the first `n₁` steps are the outputs of the truncated run — whatever the
+later inputs `b` are. (Consequently two runs whose inputs agree on the first `n₁` steps have the same first `n₁` outputs.) -/
+def Causal {α} (km : KModel α) : Prop :=
+  ∀ (p : List α) (a b : List (List α)) (st : List α) (n₁ n₂ : Nat) (o o₁ : KOut α),
+    a.length = b.length → AllLen n₁ a → AllLen n₂ b →
+    km.run p (catSeries a b) st = .ok o → km.run p a st = .ok o₁ →
+    o.outputs.map (·.take n₁) = o₁.outputs
+
+/-- changing the later inputs: two continuations `b`, `b'` of the same first part give the same first `n₁` outputs -/
+theorem Causal.change {α} {km : KModel α} (h : Causal km) (p : List α) (a b b' : List (List α)) (st : List α)
+    (n₁ n₂ n₂' : Nat) (o o' o₁ : KOut α) (hl : a.length = b.length) (hl' : a.length = b'.length)
+    (ha : AllLen n₁ a) (hb : AllLen n₂ b) (hb' : AllLen n₂' b')
+    (hr : km.run p (catSeries a b) st = .ok o) (hr' : km.run p (catSeries a b') st = .ok o')
+    (h₁ : km.run p a st = .ok o₁) :
+    o.outputs.map (·.take n₁) = o'.outputs.map (·.take n₁) := by
+  rw [h p a b st n₁ n₂ o o₁ hl ha hb hr h₁, h p a b' st n₁ n₂' o' o₁ hl' ha hb' hr' h₁]
+
+theorem take_append_len {β} {l₁ l₂ : List β} {n : Nat} (h : l₁.length = n) : (l₁ ++ l₂).take n = l₁ := by
+  subst h; simp
+
+theorem zeros_length {α} [Num α] (n : Nat) : (zeros n : List α).length = n := by simp [zeros]
+
 /-! ### zip of concatenations, for kernels that zip their input series -/
 
 theorem zip_append_eq {β γ} (a₁ a₂ : List β) (b₁ b₂ : List γ) (h : a₁.length = b₁.length) :
